@@ -1171,6 +1171,11 @@ def getattr_(I, ctx, o, name, default=_MISSING):
         ga, _ = o.cls.lookup("__getattr__")
         if ga is not None:
             return I.call(ctx, ga, [o, name], {})
+        if default is _MISSING and not name.startswith("__") and any(c.external and c.external not in ("object",) and not c.external.startswith("exc:") for c in o.cls.mro()):
+            # an object of a modelled external class (sortedcontainers, datetime ...): a method the model does not have is a
+            # limit of the model, not an AttributeError of the program
+            ext = [c.external for c in o.cls.mro() if c.external and c.external != "object"][0]
+            raise Unsupported(f"attribute '{name}' of the modelled external class {ext} is not modelled at {ctx.where}")
         if o.label is not None:
             init = _init_default(I, ctx, o.cls, name)
             if init is not _MISSING:
@@ -1442,6 +1447,8 @@ def instantiate(I, ctx, cls, args, kwargs):
     init, owner = cls.lookup("__init__")
     if isinstance(init, (FuncVal, Builtin)) and not (isinstance(init, Builtin) and init.fn is None):
         I.call(ctx, init, [o] + list(args), kwargs)
+    if isinstance(o, Obj):
+        ctx.ghost.setdefault("created", []).append(o)     # objects the code under verification created (finaliser clauses)
     return o
 
 
